@@ -1,0 +1,3 @@
+//! RPC message codec hooks: `rpc` is crate-private, the harness needs the message types and
+//! `Message::{encode, decode}`.
+pub use crate::rpc::{Message, Request, RequestBody, RequestId, Response, ResponseBody};
